@@ -5,6 +5,9 @@ Every check runs the real mokapot functions on one seeded random dataset under a
 and demands equal scores (1e-9) and equal result files (same files, same rows in the same order, numeric columns
 up to 1e-9).  The oracle is the property itself (equality between configurations); no mokapot code is re-used.
 
+Scores with exact ties are part of the domain (brew returns one 0.0 per fold, see check tied_scores_chunks): files
+that differ only in the order / choice of rows with exactly equal scores get the case ids in TIE_CASE.
+
 NB: `import mokapot.brew as m` yields the *function* brew (mokapot/__init__ shadows the sub-module); the chunk
 constants must be patched in `importlib.import_module("mokapot.brew")`."""
 import importlib
@@ -380,7 +383,8 @@ def check_duplicates_across_chunks(tier, seed):
             continue
         d = diff_results(refs[(cfg["dedup"], cfg["rollup"])], r["files"])
         if d:
-            ck.violation(TIE_CASE.get(d[0], "duplicates-split-over-chunks-dedup-%s" % ("on" if cfg["dedup"] else "off")),
+            ck.violation(TIE_CASE.get(d[0], "duplicates-split-over-chunks-dedup-%s"
+                                      % ("on" if cfg["dedup"] else "off")),
                          "%d spectra split over chunks: %s" % (split, d[1]), cfg)
     return ck
 
@@ -612,10 +616,12 @@ def check_thread_timing(tier, seed):
             for w in (4, 2):
                 cfgs.append(dict(seed=seed, est=est, fmt="csv" if k % 2 == 0 else "pq3", workers=w,
                                  consts={"read": 40, "conf": 25} if k % 2 else {}, sleep=1000 * seed + k))
-    ck = ClassCheck("thread_timing", "mokapot.brew.brew (joblib threads), mokapot.confidence.create_sorted_file_iterator",
+    ck = ClassCheck("thread_timing",
+                    "mokapot.brew.brew (joblib threads), mokapot.confidence.create_sorted_file_iterator",
                "%d runs: brew + assign_confidence with max_workers 4 and 2 on %d PSMs where every estimator fit / "
                "decision_function (logistic regression) resp. Model.fit / Model.predict (PercolatorModel) sleeps "
-               "U(0,30ms), as do the chunk-reading tasks of parse_in_chunks, drawn from %d delay seeds; plus %d assign_confidence runs (chunk 7, 4 workers) whose "
+               "U(0,30ms), as do the chunk-reading tasks of parse_in_chunks, drawn from %d delay seeds; plus %d "
+               "assign_confidence runs (chunk 7, 4 workers) whose "
                "chunk-writer tasks sleep U(0,20ms); reference of each run: same format and constants, 1 worker, no "
                "delays"
                % (len(cfgs), n, reps, 2 * reps),
